@@ -101,6 +101,31 @@ def install():
 
     abstract.OptimizationAbstract._greedy_select_population = gsp_tap
 
+    # -- shared-write probe + directed pre-emption: a pooled task (worker thread of a thread pool) that writes an
+    #    attribute of an object it shares with the other threads (task, optimizer, configuration) opens a potential
+    #    race window; the simulator counts it and parks the writer right there
+    import importlib
+    models = importlib.import_module("pyvolutionary.models")
+    models = sys.modules["pyvolutionary.models"]
+
+    def tap_setattr(klass, label):
+        orig = klass.__setattr__
+
+        def __setattr__(self, name, value):
+            orig(self, name, value)
+            sim = kernel.ACTIVE
+            if sim is not None and not sim.aborting:
+                t = sim.cur()
+                if t is not None and not t.is_main and t.ctx.parent is None and t.name.startswith("p"):
+                    sim.count("shared_write_in_pool")
+                    sim.force_preempt(f"shared_write:{label}.{name}")
+
+        klass.__setattr__ = __setattr__
+
+    tap_setattr(models.Task, "task")
+    tap_setattr(models.BaseOptimizationConfig, "config")
+    tap_setattr(abstract.OptimizationAbstract, "optimizer")
+
     # -- tap: cycle boundaries (class-level wrappers: picklable by reference)
     def wrap_step(cls):
         orig = cls.__dict__.get("optimization_step")
